@@ -670,8 +670,9 @@ theorem rrunNode_core {fx d R G H T} (ok : SnapOK fx d R G) (wf : WF d) (rs : RS
     have hnotG : G i = true → T i = false → False := by
       intro hG hT
       exact hhit ⟨hb.cacheG i hidle hG hT, ok.Gclean i hG⟩
-    have hb1 : RBook fx d G H T { s := submit d rs.s i, cache := updF rs.cache i (some (fetchArgs d rs.s.out i)),
-                                fcalls := updF rs.fcalls i (rs.fcalls i + 1) } :=
+    have hb1 : RBook fx d G H T
+        { s := submit d rs.s i, cache := updF rs.cache i (some (fetchArgs d rs.s.out i)),
+          fcalls := updF rs.fcalls i (rs.fcalls i + 1) } :=
       hbsub _ _ (fun x hx => by simp [updF, hx]) (fun x hx => by simp [updF, hx]) (by simp [hfc0])
         (fun hG hT => (hnotG hG hT).elim) (fun _ => by simp [hfc0]) (fun _ => by simp [hfc0])
         (fun _ => by simp [hfc0])
